@@ -8,6 +8,8 @@
 //	        calls, Counters() calls in between, instants at k*W-1, k*W, k*W+1 ns)
 //	plugin  StrategyBasedThrottlingPlugin.OnRequest (group header values, allocation
 //	        tables with every default behaviour, status codes, config changes)
+//	overlap OnRequest goroutines and quota_used gauge callbacks (RateLimitState.Counters())
+//	        that really overlap, as forced schedules (overlap.go, overlap_gen.go)
 //
 // Observables: Proceed / Block / error / panic, and at plugin level NoOp vs early
 // response with its status.  monitor.go restates the property over them.
@@ -912,13 +914,19 @@ func main() {
 	o.DeclareSuite("limit", req, "case_limit", "run_limit")
 	o.DeclareSuite("hist", req, "case_hist", "run_hist")
 	o.DeclareSuite("plugin", req, "case_plugin", "run_plugin")
+	o.DeclareSuite("overlap", "From Verif Require Import C09.Model C09.Registry C09.Overlap.", "case_overlap", "run_overlap")
 	o.Rule("limit: (allowed, percentage) pairs aimed at whole-number products + raw float patterns; " +
 		"hist: all multisets of <=4 instants over three 3-ns windows, then random histories over 1-4 keys with " +
 		"instants at kW-1/kW/kW+1, window-data changes, spill-over and Counters() calls; plugin: OnRequest " +
 		"histories over remedies with allocation tables (all default behaviours), header variants and " +
-		"configuration versions; distinct = distinct (inputs, observed verdicts); non-trivial = limit strictly " +
+		"configuration versions; overlap: forced schedules of OnRequest goroutines (held in the group-id hasher " +
+		"before the registry look-up, or in the clock reading inside TryToIncrement) and quota_used gauge " +
+		"callbacks (held in the clock reading of their n-th limiter), statuses (waiting for a mutex / held / " +
+		"finished) after every operation, follow-up requests in the same window; " +
+		"distinct = distinct (inputs, observed verdicts); non-trivial = limit strictly " +
 		"between 0 and the number of requests / history with a proceed, a block and a window roll-over / " +
-		"plugin history with both NoOp and an early response")
+		"plugin history with both NoOp and an early response / overlap schedule in which a goroutine was seen " +
+		"waiting for a mutex and a request was rejected")
 
 	var raw json.RawMessage
 	if suite, ok := o.ReplayCase(&raw); ok {
@@ -935,6 +943,11 @@ func main() {
 			var k PluginCase
 			must(json.Unmarshal(raw, &k))
 			runPlugin(o, k)
+		case "overlap":
+			var k OverlapCase
+			must(json.Unmarshal(raw, &k))
+			execOverlap(&k)
+			runOverlapCase(o, &k)
 		case "stress":
 			var k StressCase
 			must(json.Unmarshal(raw, &k))
@@ -957,6 +970,7 @@ func main() {
 	for i := 0; i < o.Scale(500, 6000, 8000); i++ {
 		runPlugin(o, genPluginCase(rp))
 	}
+	genOverlap(o)
 	stress(o)
 	o.Finish()
 }
